@@ -47,6 +47,10 @@ class Report:
 
     def oblige(self, rule, site, ok=True, nontrivial=False, sample=None):
         """one rule instance examined. `site` is a short stable string."""
+        if '::controls::' in site or 'control_' in site:
+            # positive controls are deliberately violated: not part of the obligations on the repository
+            self.counts['controls'] = self.counts.get('controls', 0) + 1
+            return
         self.obligations += 1
         self.counts[rule] = self.counts.get(rule, 0) + 1
         if ok:
